@@ -294,7 +294,7 @@ def _forward_grad_job(job, sett, driver):
     return L, inputs, mol, en, arrays
 
 
-def _run_job(job, reuse, reg, scratch, idx):
+def _run_job(job, reuse, reg, scratch, idx, extra):
     import torch
 
     from seqm.ElectronicStructure import Electronic_Structure
@@ -302,7 +302,6 @@ def _run_job(job, reuse, reg, scratch, idx):
     spec = JOBS[job]
     kind = spec["kind"]
     arrays = {}
-    extra = {}
     make = None
     sett, driver, info, ent = reg.get(job, reuse, make)
     extra.update(info)
@@ -371,7 +370,7 @@ def _run_job(job, reuse, reg, scratch, idx):
         raise RuntimeError("unknown job kind")
     extra["settings_after"] = {k: (v if isinstance(v, (int, float, str, bool, list)) else repr(v))
                                for k, v in sett.items() if k in ("scf_eps", "elements", "analytical_gradient", "sp2")}
-    return arrays, extra
+    return arrays
 
 
 def _interleave(jobs, order, reg):
@@ -457,15 +456,17 @@ def main():
                     r = {"interleave": [{"job": j, "status": "raised", "exc": ("%s: %s" % (type(exc).__name__, exc))[:300]}
                                         for j in st["interleave"]]}
             else:
+                extra = {}
                 try:
-                    arrays, extra = _run_job(st["job"], st.get("reuse", "none"), reg, scratch, idx)
+                    arrays = _run_job(st["job"], st.get("reuse", "none"), reg, scratch, idx, extra)
                     r = {"job": st["job"], "status": "ok", "arrays": _tolist(arrays), "sha": _digest(arrays)}
-                    r.update(extra)
                 except Exception as exc:
                     import traceback
 
                     r = {"job": st["job"], "status": "raised", "exc": ("%s: %s" % (type(exc).__name__, exc))[:300],
                          "tb": traceback.format_exc()[-600:]}
+                r.update(extra)
+                r["reuse"] = st.get("reuse", "none")
         finally:
             sys.stdout = real_stdout
         after = _snapshot()
